@@ -153,6 +153,10 @@ def check_roundtrip(path: str, model, expected: dict, check_ir_load: bool = True
                 want = t.tobytes()
             if int(t.dtype) != tp.data_type or [int(d) for d in t.shape] != list(tp.dims):
                 probs.append({"reader": "raw", "what": f"{tp.name}: dtype/shape differs"})
+            otp = next((x for x in ogs[g.name].initializer if x.name == tp.name), None)
+            if otp is not None and (otp.doc_string != tp.doc_string or
+                                    sorted((m.key, m.value) for m in otp.metadata_props) != sorted((m.key, m.value) for m in tp.metadata_props)):
+                probs.append({"reader": "raw", "meta": True, "what": f"{tp.name}: tensor doc_string / metadata_props not preserved"})
             if tp.data_location == onnx.TensorProto.EXTERNAL:
                 info = {kv.key: kv.value for kv in tp.external_data}
                 loc = info.get("location", "")
@@ -234,6 +238,8 @@ def _call_path(cfg: dict, sandbox: str):
         p, real = os.path.join(d, name), os.path.join(d, name)
     elif form == "rel":
         p, real = name, os.path.join(sandbox, name)
+    elif form == "missingdir":
+        p = real = os.path.join(sandbox, "no", "such", "dir", name)
     else:  # nested relative
         d = os.path.join(sandbox, "a", "b.c")
         os.makedirs(d, exist_ok=True)
@@ -256,7 +262,7 @@ def run_save(recipe: dict, plan: dict | None, root: str, retry: bool = True) -> 
         model, expected = models.build(recipe, sandbox)
         os.chdir(sandbox)
         call_path, real_path = _call_path(cfg, sandbox)
-        pre = cfg.get("preexisting", "none")
+        pre = cfg.get("preexisting", "none") if cfg.get("path_form") != "missingdir" else "none"
         if pre in ("both", "model_only"):
             with open(real_path, "wb") as f:
                 f.write(b"stale-model" * 50)
@@ -309,23 +315,19 @@ def run_save(recipe: dict, plan: dict | None, root: str, retry: bool = True) -> 
                     rec["violations"].append({"class": "wrote-before-refusing", "detail":
                                               [f"{len(fs.events)} fs events before the refusal", fs.shape()[:200]]})
         else:
-            if outcome == "raised" and not faulted:
+            if outcome == "raised" and not faulted and cfg.get("path_form") == "missingdir" and isinstance(exc, OSError):
+                pass  # the destination directory does not exist: failing is right; I1 above still applies
+            elif outcome == "raised" and not faulted:
                 rec["violations"].append({"class": "fault-free-save-failed", "detail": [f"{type(exc).__name__}: {str(exc)[:200]}"]})
             # I2 — whenever the call returned normally
             if outcome == "returned":
                 probs = check_roundtrip(real_path, model, expected)
-                if probs:
-                    rec["violations"].append({"class": "success-but-bad-roundtrip", "detail": [p["what"] for p in probs[:6]],
-                                              "raw_damaged": sorted({p["tensor"] for p in probs if "tensor" in p}),
-                                              "raw_confined": all(p.get("confined_to_final_partial_block", False)
-                                                                  for p in probs if p["reader"] == "raw"),
-                                              "readers": sorted({p["reader"] for p in probs}),
-                                              "dtypes": sorted({p.get("dtype", "") for p in probs} - {""})})
+                rec["violations"] += _roundtrip_violations(probs, "success-but-bad-roundtrip")
                 d = diff_snapshot(snap0, snapshot(model))
                 if d and not rec["violations"]:
                     rec["violations"].append({"class": "model-changed", "detail": ["after reading back"] + d[:5]})
             # I4 — bounded recovery: faults have stopped, one retry must succeed and round-trip
-            if retry and faulted and outcome == "raised":
+            if retry and faulted and outcome == "raised" and cfg.get("path_form") != "missingdir":
                 fs2 = SimFS(sandbox, None, hide_fileno=cfg.get("backend") == "nofileno",
                             clock_steps=cfg.get("clock") or DEFAULT_CLOCK)
                 exc2 = None
@@ -339,10 +341,7 @@ def run_save(recipe: dict, plan: dict | None, root: str, retry: bool = True) -> 
                     rec["violations"].append({"class": "retry-fails", "detail": [f"{type(exc2).__name__}: {str(exc2)[:200]}"]})
                 else:
                     probs = check_roundtrip(real_path, model, expected)
-                    if probs:
-                        rec["violations"].append({"class": "retry-bad-roundtrip", "detail": [p["what"] for p in probs[:6]],
-                                                  "readers": sorted({p["reader"] for p in probs}),
-                                                  "dtypes": sorted({p.get("dtype", "") for p in probs} - {""})})
+                    rec["violations"] += _roundtrip_violations(probs, "retry-bad-roundtrip")
                     d = diff_snapshot(snap0, snapshot(model))
                     if d:
                         rec["violations"].append({"class": "model-changed", "detail": ["after retry"] + d[:5]})
@@ -368,6 +367,30 @@ def _reset_tqdm():
         tqdm.tqdm._instances.clear()
     except Exception:  # noqa: BLE001
         pass
+
+
+def _roundtrip_violations(probs: list[dict], cls: str) -> list[dict]:
+    """One violation per *kind* of round-trip problem, so that each can be matched (or not) on its own:
+    tensor-level metadata lost / 2-bit tensors unreadable by onnx_ir.load only / everything else."""
+    groups: dict[str, list[dict]] = {"meta": [], "twobit_reader": [], "other": []}
+    for p in probs:
+        if p.get("meta"):
+            groups["meta"].append(p)
+        elif p["reader"] == "onnx_ir.load" and p.get("dtype") in ("INT2", "UINT2"):
+            groups["twobit_reader"].append(p)
+        else:
+            groups["other"].append(p)
+    out = []
+    for ps in groups.values():
+        if not ps:
+            continue
+        out.append({"class": cls, "detail": [p["what"] for p in ps[:6]],
+                    "raw_damaged": sorted({p["tensor"] for p in ps if "tensor" in p}),
+                    "meta_lost_only": all(p.get("meta") for p in ps),
+                    "raw_confined": all(p.get("confined_to_final_partial_block", False) for p in ps if p["reader"] == "raw"),
+                    "readers": sorted({p["reader"] for p in ps}),
+                    "dtypes": sorted({p.get("dtype", "") for p in ps} - {""})})
+    return out
 
 
 def _chain(e):
